@@ -328,7 +328,7 @@ class CoherentArtifact(Contract):
 
     def cases(self, tier):
         for order in (0, 1, 2, 3, 4):
-            for irf in ("plain", "shift", "none"):
+            for irf in ("plain", "shift", "none", "dispersion"):
                 for own in (False, True):
                     if order in (0, 4) and (irf != "plain" or own):
                         continue
@@ -340,8 +340,24 @@ class CoherentArtifact(Contract):
 
         gaxis = np.array([500.0, 600.0])
         t = S.real_array("t", 2)
+        disp = None
         if case["irf"] == "none":
             irf, cv, wv, sv, shv = None, None, None, None, None
+        elif case["irf"] == "dispersion":
+            # a spectral IRF whose centre *and* width depend on the global index: the artifact sits at the centre of index i and,
+            # without a width of its own, has the IRF width of index i - the same effective IRF as the decay model of the dataset
+            from glotaran.builtin.megacomplexes.decay.irf import IrfSpectralMultiGaussian
+
+            cp, cv = _params(S, "c", 1)
+            wp, wv = _params(S, "w", 1)
+            ccp, ccv = _params(S, "cd", 1)
+            wcp, wcv = _params(S, "wd", 1)
+            irf = IrfSpectralMultiGaussian(label="irf", center=cp, width=wp, dispersion_center=Parameter(label="dc", value=550.0), center_dispersion_coefficients=ccp, width_dispersion_coefficients=wcp)
+            sv, shv = [1.0], [0.0] * len(gaxis)
+            disp = [(float(g) - 550.0) / 100 for g in gaxis]
+            for d in disp:
+                S.require(L.gt(wv[0] + wcv[0] * d, 0), "effective widths positive")
+            disp = [(ccv[0] * d, wcv[0] * d) for d in disp]
         else:
             irf, cv, wv, sv, shv = _irf(S, case["irf"], len(gaxis), 1)
         ow = None
@@ -351,7 +367,7 @@ class CoherentArtifact(Contract):
             S.require(L.gt(ow, 0), "own width positive")
             kw["width"] = Parameter(label="ca.w", value=ow)
         mc = CoherentArtifactMegacomplex(label="ca", order=case["order"], **kw)
-        return {"mc": mc, "dm": _DM(irf), "t": t, "g": gaxis, "cv": cv, "wv": wv, "shv": shv, "ow": ow}
+        return {"mc": mc, "dm": _DM(irf), "t": t, "g": gaxis, "cv": cv, "wv": wv, "shv": shv, "ow": ow, "disp": disp}
 
     def stubs_for(self, S, case, inp):
         if not S.symbolic:
@@ -380,11 +396,14 @@ class CoherentArtifact(Contract):
             return
         labels, M, t = out["labels"], out["M"], inp["t"]
         yield "labels_one_per_order", labels == [f"coherent_artifact_{i}_ca" for i in range(1, order + 1)]
-        dep = case["irf"] == "shift"
+        dep = case["irf"] in ("shift", "dispersion")
         cells = []
         for gi in range(len(inp["g"]) if dep else 1):
             c = inp["cv"][0] - inp["shv"][gi if dep else 0]
             w = inp["ow"] if case["own_width"] else inp["wv"][0]
+            if inp["disp"] is not None:
+                c = c + inp["disp"][gi][0]
+                w = w if case["own_width"] else w + inp["disp"][gi][1]
             for ti in range(len(t)):
                 g0 = L.fn("exp", -1 * (t[ti] - c) ** 2 / (2 * w**2))
                 want = [g0, g0 * (c - t[ti]) / w**2, g0 * ((t[ti] - c) ** 2 - w**2) / w**4]
